@@ -56,13 +56,10 @@ class GreedyAllocator:
         self.current_allocs = [(start_addr, lr) for start_addr, lr in self.current_allocs if lr != lr_to_dealloc]
 
     def allocate_live_ranges(self, alignment):
-        lrs = set()
-        for lr in self.live_ranges.lrs:
-            lrs.add((lr.start_time, -lr.end_time, lr))
+        # Live ranges that compare equal keep their creation order (idx) instead of the iteration order of a set
+        lrs = sorted((lr.start_time, -lr.end_time, idx, lr) for idx, lr in enumerate(self.live_ranges.lrs))
 
-        lrs = sorted(lrs)
-
-        for curr_time, _, new_lr in lrs:
+        for curr_time, _, _, new_lr in lrs:
             for _, lr in list(self.current_allocs):
                 if lr.end_time < curr_time:
                     self.dealloc(lr)
